@@ -33,13 +33,23 @@ def run_case(c):
     user = dict(hd)
     with R.Scratch() as d:
         stem = os.path.join(d, "c04")
+        # record() works on its own copy of the caller's dictionary: observe the dictionary handed to the header writer
+        cap = {}
+        orig = be._make_header
+
+        def spy(f, header_dict):
+            cap["d"] = header_dict
+            return orig(f, header_dict)
+        be._make_header = spy
         try:
             R.record(be, stem, c, header_dict=hd)
         except Exception as ex:
             return dict(error=repr(ex))
-        res["final_keys"] = list(hd.keys())
-        res["final"] = {k: pyval(v) for k, v in hd.items()}
-        res["rendered"] = {k: (v if isinstance(v, str) else render(k, v)) for k, v in hd.items()}
+        fd = cap.get("d", hd)
+        res["final_keys"] = list(fd.keys())
+        res["final"] = {k: pyval(v) for k, v in fd.items()}
+        res["rendered"] = {k: (v if isinstance(v, str) else render(k, v)) for k, v in fd.items()}
+        res["caller_dict_unchanged"] = (hd == user)
         res["spb"] = int(be.samples_per_block)
         res["cfg"] = dict(NBITS=int(be.num_bits), NPOL=int(be.num_pols), BLOCSIZE=int(be.block_size), OBSNCHAN=int(be.num_chans * be.num_antennas),
                           NANTS=int(be.num_antennas), TBIN=float(be.tbin), CHAN_BW=float(be.chan_bw * 1e-6), OBSBW=float(be.chan_bw * be.num_chans * 1e-6),
